@@ -159,7 +159,8 @@ Definition L_all (g : allgroup) : lang :=
 Inductive use := UOptional | URequired | UProhibited.
 Inductive vc := VNone | VDefault (v : list N) | VFixed (v : list N).
 Record attruse := { au_name : qname; au_use : use; au_vc : vc }.
-Record attrdecls := { ad_uses : list attruse; ad_wild : option nsc (* anyAttribute, processContents skip/lax *) }.
+Inductive pcmode := PcSkip | PcLax | PcStrict.
+Record attrdecls := { ad_uses : list attruse; ad_wild : option (nsc * pcmode) (* anyAttribute *) }.
 
 Definition str_eqb (a b : list N) : bool :=
   (length a =? length b) && forallb (fun p => (fst p =? snd p)%N) (combine a b).
@@ -169,24 +170,32 @@ Fixpoint find_use (q : qname) (us : list attruse) : option attruse :=
 Fixpoint find_attr (q : qname) (atts : list (qname * list N)) : option (list N) :=
   match atts with [] => None | (n, v) :: r => if qname_eqb n q then Some v else find_attr q r end.
 
-(** 3.4.4 clause 3: every attribute information item is matched by a (non-prohibited) attribute use and is
-    valid with respect to it (fixed value), or by the attribute wildcard *)
-Definition attr_item_ok (d : attrdecls) (a : qname * list N) : bool :=
+(** 3.10.4 Item Valid (Wildcard): the namespace is allowed, and under strict processing the attribute has a
+    top-level declaration ([declared]); attribute values are xs:string here, so nothing else can fail *)
+Definition wild_item_ok (d : attrdecls) (declared : qname -> bool) (q : qname) : bool :=
+  match ad_wild d with
+  | Some (c, pc) => wildcard_allows c (fst q) && match pc with PcStrict => declared q | _ => true end
+  | None => false
+  end.
+
+(** 3.4.4 clause 3: every attribute information item is matched by an attribute use and valid with respect to it
+    (fixed value), or else by the attribute wildcard.  A declaration with use = prohibited is no attribute use. *)
+Definition attr_item_ok (d : attrdecls) (declared : qname -> bool) (a : qname * list N) : bool :=
   match find_use (fst a) (ad_uses d) with
   | Some u =>
       match au_use u with
-      | UProhibited => match ad_wild d with Some c => wildcard_allows c (fst (fst a)) | None => false end
+      | UProhibited => wild_item_ok d declared (fst a)
       | _ => match au_vc u with VFixed v => str_eqb v (snd a) | _ => true end
       end
-  | None => match ad_wild d with Some c => wildcard_allows c (fst (fst a)) | None => false end
+  | None => wild_item_ok d declared (fst a)
   end.
 (** 3.4.4 clause 4: every required attribute use is matched *)
 Definition required_present (d : attrdecls) (atts : list (qname * list N)) : bool :=
   forallb (fun u => match au_use u with
                     | URequired => match find_attr (au_name u) atts with Some _ => true | None => false end
                     | _ => true end) (ad_uses d).
-Definition attrs_valid (d : attrdecls) (atts : list (qname * list N)) : bool :=
-  forallb (attr_item_ok d) atts && required_present d atts.
+Definition attrs_valid (d : attrdecls) (declared : qname -> bool) (atts : list (qname * list N)) : bool :=
+  forallb (attr_item_ok d declared) atts && required_present d atts.
 
 (** the attributes of the post-schema-validation infoset: the specified ones followed by the defaulted ones
     (3.4.5: an attribute use with a default or fixed value constraint and no matching item) *)
